@@ -61,7 +61,7 @@ class Part:
     pass
 
 
-def gen_build(bname, repo=None, usize_bytes=None):
+def gen_build(bname, repo=None, usize_bytes=None, drop_hints=None):
     repo = repo or units.REPO
     b = units.BUILDS[bname]
     usize_bytes = usize_bytes or b.get('usize_bytes', 8)
@@ -106,7 +106,7 @@ def gen_build(bname, repo=None, usize_bytes=None):
                     except OSError as e:
                         raise GenError('template missing for part %s: %s' % (p['name'], e))
                     try:
-                        w = weave(e_text, e0_text, p_text)
+                        w = weave(e_text, e0_text, p_text, drop_hints=(drop_hints or {}).get(p['name']))
                     except (WeaveError, LexError) as e:
                         raise GenError('weave failed for part %s: %s' % (p['name'], e))
                     s = cur_line()
